@@ -97,9 +97,9 @@ Fixpoint nl_rows (k : nl_case) (g : vgrid) (xyz : list vec) (i : nat) (model : l
   | _, _ => false
   end.
 
-Definition nl_check_on (k : nl_case) (xyz : list vec) (impl : list (list Z)) : bool :=
-  let g := make_grid (nl_cell k) (nl_c k) xyz in
-  nl_rows k g xyz 0 (nlist_half (nl_cell k) (nl_c k) xyz) impl.
+Definition nl_check_on (fully : bool) (k : nl_case) (xyz : list vec) (impl : list (list Z)) : bool :=
+  let g := make_grid_gen fully (nl_cell k) (nl_c k) xyz in
+  nl_rows k g xyz 0 (nlist_half_gen fully (nl_cell k) (nl_c k) xyz) impl.
 
 Fixpoint vecs_eqb (a b : list vec) : bool :=
   match a, b with
@@ -109,14 +109,17 @@ Fixpoint vecs_eqb (a b : list vec) : bool :=
   end.
 
 (* impl = for every atom the reported neighbours with a smaller index, ascending.
-   Result: 0 = agrees with both variants, 1 = only with the repaired one (positions wrapped into the cell
-   first), 2 = only with the as-found one, 3 = with neither.  When wrapping changes no position the two
-   variants are the same computation and it is done once. *)
+   Result: bit 0 = agrees with the kernel as found at the pinned commit (nlist_cur), bit 1 = with the first repair
+   (positions wrapped into the cell first, nlist_fix), bit 2 = with the second repair on top of it (all y voxels
+   in a triclinic cell with fewer than 5 z voxels, nlist_fix2).  Computations that cannot differ are done once:
+   wrapping that changes no position; the second repair outside its trigger condition. *)
 Definition nl_code (k : nl_case) (impl : list (list Z)) : Z :=
-  let cur := nl_check_on k (nl_xyz k) impl in
+  let cur := nl_check_on false k (nl_xyz k) impl in
   let wrapped := match nl_cell k with
                  | Some B => map (wrap_into_cell (reduce_box B)) (nl_xyz k)
                  | None => nl_xyz k
                  end in
-  let fx := if vecs_eqb wrapped (nl_xyz k) then cur else nl_check_on k wrapped impl in
-  (if cur then 0 else 1) + (if fx then 0 else 2).
+  let fx := if vecs_eqb wrapped (nl_xyz k) then cur else nl_check_on false k wrapped impl in
+  let g := make_grid_gen true (nl_cell k) (nl_c k) wrapped in
+  let fx2 := if g_per g && g_tric g && (g_nz g <? 5) then nl_check_on true k wrapped impl else fx in
+  (if cur then 1 else 0) + (if fx then 2 else 0) + (if fx2 then 4 else 0).
